@@ -338,6 +338,18 @@ def check_item(spec):
     if ob == "endtoend":
         # concrete black box: exact amplitudes of the real algorithm circuit around the real compiled
         # circuit (no oracle variables) - closes the loop for this program
+        if int(item_id(spec), 16) % 2 == 0:
+            # the black box object is used by a second wrapper (and, for half of these, by a Grover
+            # search in between): the later construction is the one judged
+            try:
+                if int(item_id(spec), 16) % 4 == 0 and qf.returns.ttype is bool:
+                    from qlasskit.algorithms import Grover
+
+                    Grover(qf)
+                A = build_algo(spec["algo"], qf)
+            except Exception as e:
+                finding("constructor-raises", "second construction from the same QlassF: %s: %s" % (type(e).__name__, str(e)[:100]))
+                return st.into(res)
         qc = A.circuit()
         nq = qc.num_qubits
         if nq > 12:
